@@ -34,7 +34,12 @@ WANT_KINDS = {
 
 def grid_time_of(expr, flow, epoch_name, names, kinds, mod):
     """Normalise an epoch expression to (end, mask, total offset) or raise.
-    Accepts int(E), epoch[I], epoch[I] + k*step."""
+    Accepts int(E), epoch[I], epoch[I] + k*step, with I affine in one run end;
+    `min` / `max` clamps against the array length are decided by cases
+    (stop inside the array / stop == len(array)): the offsets of all
+    feasible cases are returned as a list [(case label, offset)]."""
+    from ..ordercell import CellEval, Undecided
+
     e = flow.expand(expr, keep={epoch_name} | set(names))
     while isinstance(e, ast.Call) and isinstance(e.func, ast.Name) and e.func.id == "int" and len(e.args) == 1:
         e = e.args[0]
@@ -49,22 +54,58 @@ def grid_time_of(expr, flow, epoch_name, names, kinds, mod):
         core = core.left
     if not (isinstance(core, ast.Subscript) and isinstance(core.value, ast.Name) and core.value.id == epoch_name):
         raise AnalysisError("epoch expression %s is not a grid time" % ast.unparse(e)[:80])
-    try:
-        idx = py_poly(core.slice)
-    except NotAlgebraic:
-        raise AnalysisError("index %s not affine" % ast.unparse(core.slice))
-    # idx = NAME + c
-    atoms = idx.atoms()
-    if len(atoms) != 1:
-        raise AnalysisError("index %s does not depend on exactly one run end" % idx.key())
-    a = next(iter(atoms))
-    if idx.coeff_of_atom(a) != Poly.const(1):
-        raise AnalysisError("index %s is not NAME + c" % idx.key())
-    c = idx.without_atom(a).const_value()
-    if a not in names:
-        raise AnalysisError("index name %s is not one of the run ends" % a)
+    used = sorted({n.id for n in ast.walk(core.slice) if isinstance(n, ast.Name) and n.id in names})
+    if len(used) != 1:
+        raise AnalysisError("index %s does not depend on exactly one run end" % ast.unparse(core.slice))
+    a = used[0]
     k = names[a]
-    return (k.end, k.mask, k.off + int(c) + steps)
+    has_clamp = any(isinstance(n, ast.Call) for n in ast.walk(core.slice))
+    if not has_clamp:
+        try:
+            idx = py_poly(core.slice)
+        except NotAlgebraic:
+            raise AnalysisError("index %s not affine" % ast.unparse(core.slice))
+        if idx.coeff_of_atom(a) != Poly.const(1) or not idx.without_atom(a).is_const():
+            raise AnalysisError("index %s is not NAME + c" % idx.key())
+        c = idx.without_atom(a).const_value()
+        return [("always", (k.end, k.mask, k.off + int(c) + steps))]
+
+    # case analysis over the position of the stop relative to the last valid index M = len - 1
+    def sym_of(node):
+        return None
+
+    def apply(call, args, evl):
+        if isinstance(call.func, ast.Name) and call.func.id == "len" and len(call.args) == 1:
+            return Poly.atom("M") + Poly.const(1)
+        return None
+
+    out = []
+    cases = [("stop inside the array", {a: 0, "M": 1}, None)]
+    if k.end == "L" and k.off >= 1:
+        cases.append(("stop = last index", {a: 1, "M": 1}, None))
+        cases.append(("stop = len(array) (run reaches the end of the stretch)", {"M": 0}, Poly.atom("M") + Poly.const(1)))
+    for label, cell, bound in cases:
+        ev = CellEval(cell, sym_of, apply=apply, env={a: bound if bound is not None else Poly.atom(a)})
+        try:
+            idx = ev.eval(core.slice)
+        except Undecided as exc:
+            raise AnalysisError("index %s not decidable in case '%s': %s" % (ast.unparse(core.slice), label, exc))
+        if bound is not None:
+            # express in terms of the stop: M = stop - 1
+            if idx.coeff_of_atom("M") != Poly.const(1) or not idx.without_atom("M").is_const():
+                raise AnalysisError("index %s is not affine in case '%s'" % (idx.key(), label))
+            c = idx.without_atom("M").const_value() - 1
+        else:
+            if idx.coeff_of_atom(a) != Poly.const(1) or not idx.without_atom(a).is_const():
+                # the clamp picked the length side although the stop is inside
+                if idx.coeff_of_atom("M") == Poly.const(1) and idx.without_atom("M").is_const() and cell.get(a) == cell.get("M"):
+                    c = idx.without_atom("M").const_value()
+                else:
+                    raise AnalysisError("index %s is not NAME + c in case '%s'" % (idx.key(), label))
+            else:
+                c = idx.without_atom(a).const_value()
+        out.append((label, (k.end, k.mask, k.off + int(c) + steps)))
+    return out
 
 
 def _step_multiple(node, epoch_name, mod):
@@ -270,13 +311,16 @@ def run(ctx, chk, tier="quick"):
                 continue
             sinks += 1
             try:
-                got = grid_time_of(pd[v[1]], maflow, epoch_name, name_kind, kinds, mod)
+                cases = grid_time_of(pd[v[1]], maflow, epoch_name, name_kind, kinds, mod)
             except AnalysisError as exc:
                 chk.indeterminate("C03.O3", where_of(mas, s.call), "%s.%s: %s" % (key[0], key[1], exc))
                 continue
             want_k = WANT_KINDS[key]
-            chk.ob("C03.O3", got == want_k, where_of(mas, s.call),
-                   "%s.%s = GridTime(%s(%s)%+d)" % (key[0], key[1], got[0], got[1], got[2]),
+            bad = [(lab, g) for lab, g in cases if g != want_k]
+            shown = bad[0] if bad else cases[0]
+            chk.ob("C03.O3", not bad, where_of(mas, s.call),
+                   "%s.%s = GridTime(%s(%s)%+d)%s" % (key[0], key[1], shown[1][0], shown[1][1], shown[1][2],
+                                                       "" if shown[0] == "always" else " when %s" % shown[0]),
                    "GridTime(%s(%s)%+d)" % want_k, key="match_all_storms|sink|%s.%s" % key,
                    why="storms are half-open over steps (thru = start of the first step after the run); rises are closed over samples (thru = last sample of the run)")
     chk.floor("epoch sinks of the storm / rise INSERTs", sinks, 6)
@@ -316,6 +360,8 @@ def run(ctx, chk, tier="quick"):
                "%s grouped by %s" % (desc, [expr_str(g) for g in gb]), "SUM(intensity x (thru - from) / 3600) grouped by storm start",
                key="view|storm_total_rain_depth|expression", why="rain depth is intensity [mm/h] times step length [h], summed over the storm's steps")
 
+    from .. import sqltypes
+    sqltypes.check(ctx, chk, "C03.O1", modules=("classify",), views=("storm_total_rain_depth",))
     # ------------------------------------------------------------ O6 gap isolation
     ci = ctx.func("classify.classify_intervals")
     ciflow = Flow.of(ci)
